@@ -118,7 +118,7 @@ META = dict(
     ],
     bounds=dict(
         quick="col: fixpoint; ref: fixpoint; coll: depth 3, reduced mutator alphabet",
-        thorough="col: fixpoint; ref: fixpoint; coll: depth 4, full mutator alphabet",
+        thorough="col: fixpoint; ref: fixpoint; coll: depth 5, full mutator alphabet",
     ),
 )
 
@@ -1089,7 +1089,7 @@ def depth_for(shard, tier):
         return DEPTH[tier]
     if shard[0] in ("col", "ref"):
         return None  # fixpoint
-    return 3 if tier == "quick" else 4
+    return 3 if tier == "quick" else 5
 
 
 def shards(tier, seed):
